@@ -31,6 +31,9 @@ def make_archive(kind, path):
     if kind == 'sql': return ka.sqltable_archive('sqlite:///' + path + '.db', cached=False)
     raise ValueError(kind)
 
+from decimal import Decimal
+from fractions import Fraction
+
 def build(call):
     """a call description -> (args, kwargs); kwargs in the order given *for this session*"""
     return [eval(a) for a in call['args']], dict((k, eval(v)) for k, v in call['kw'])
@@ -39,7 +42,10 @@ def main():
     job = json.load(open(sys.argv[1]))
     # perturb process state: interned strings, import order, a warmed-up random module
     for i in range(job.get('noise', 0)): sys.intern('noise_%d_%d' % (i, os.getpid()))
-    if job.get('noise', 0) % 2: import decimal, fractions
+    if job.get('noise', 0) % 2:
+        # ... and its arithmetic context: this process rounds decimals half-up with a short precision (keys do not do arithmetic on arguments)
+        import decimal, fractions
+        decimal.getcontext().rounding = decimal.ROUND_HALF_UP; decimal.getcontext().prec = 6
     import klepto, klepto.safe
     from klepto._inspect import _keygen
     from klepto.archives import cache as kcache
@@ -64,6 +70,11 @@ def main():
             ign = tuple(item['ignore'])
             a, k = build(item['calls'][ci])
             try:
+                if item.get('tol') is not None:
+                    # the decorators' own first step: round the arguments of the call
+                    from klepto.rounding import deep_round, simple_round
+                    ra = (deep_round if item.get('deep') else simple_round)(item['tol'])(lambda *a_, **k_: (a_, k_))
+                    a, k = ra(*a, **k)
                 ua, uk = _keygen(f, ign, *a, **k)
                 key = km(*ua, **uk)
                 res[oi] = repr(key)
